@@ -347,6 +347,38 @@ func evalStringFn(fn *ssa.Function, bind func(v ssa.Value) (string, bool)) (cons
 			return eval(x.X, depth-1)
 		case *ssa.Convert:
 			return eval(x.X, depth-1)
+		case *ssa.Call:
+			// pure functions of package strings on concrete values (constant folding)
+			key := core.CalleeKey(&x.Call)
+			var args []string
+			for _, a := range x.Call.Args {
+				av, ok := eval(a, depth-1)
+				if !ok || av.Kind() != constant.String {
+					return nil, false
+				}
+				args = append(args, constant.StringVal(av))
+			}
+			switch {
+			case key == "strings.TrimSuffix" && len(args) == 2:
+				return constant.MakeString(strings.TrimSuffix(args[0], args[1])), true
+			case key == "strings.TrimPrefix" && len(args) == 2:
+				return constant.MakeString(strings.TrimPrefix(args[0], args[1])), true
+			case key == "strings.TrimRight" && len(args) == 2:
+				return constant.MakeString(strings.TrimRight(args[0], args[1])), true
+			case key == "strings.TrimSpace" && len(args) == 1:
+				return constant.MakeString(strings.TrimSpace(args[0])), true
+			case key == "strings.ToLower" && len(args) == 1:
+				return constant.MakeString(strings.ToLower(args[0])), true
+			case key == "strings.HasPrefix" && len(args) == 2:
+				return constant.MakeBool(strings.HasPrefix(args[0], args[1])), true
+			case key == "strings.HasSuffix" && len(args) == 2:
+				return constant.MakeBool(strings.HasSuffix(args[0], args[1])), true
+			case key == "strings.Contains" && len(args) == 2:
+				return constant.MakeBool(strings.Contains(args[0], args[1])), true
+			case key == "strings.EqualFold" && len(args) == 2:
+				return constant.MakeBool(strings.EqualFold(args[0], args[1])), true
+			}
+			return nil, false
 		}
 		return nil, false
 	}
